@@ -214,7 +214,7 @@ def gen_message(rng: random.Random, kind: int | None = None, in_domain: bool = T
             fs = {f: rng.random() < 0.6 for f in (F.AUTO, F.QUIET, F.LOW, F.MEDIUM, F.HIGH, F.POWERFUL, F.TURBO,
                                                    F.INTELLIGENT_AUTO)}
             fs[F.UNCHANGED] = True
-            abs_.append(abil.AcAbility(small(8), rand_name(rng, 16 if in_domain else 20), small(16), small(17), ms, fs,
+            abs_.append(abil.AcAbility(small(8), rand_name(rng, 16 if in_domain else 20, over=not in_domain), small(16), small(17), ms, fs,
                                        small(33), small(33), small(33), small(33)))
         return ext.ExtendedMessage(abil.AcAbilityMessage(abs_))
     if k == 12:
